@@ -351,3 +351,13 @@ func LenOf(v Val) Val {
 	}
 	panic(&ExecError{"LenOf: not a slice or string"})
 }
+
+// View returns a Conc looking at another state of the same execution (e.g. CallRec.Pre).
+func (c *Conc) View(st *State) *Conc {
+	v := &Conc{X: c.X, St: st}
+	v.E = c.X.newEnv(st, nil, nil)
+	return v
+}
+
+// SpecFun returns the signature of a `//@ func specfun` declaration.
+func (c *Conc) SpecFun(name string) *term.FunSig { return c.X.P.specFun(name) }
